@@ -463,7 +463,10 @@ SHELLS = [
     "(x + HERE__) * (y - 1) < 3 or x",
 ]
 STAR_SHELLS = ["max(x, *HERE__)", "max(*HERE__)", "(x, *HERE__)", "max(x, **HERE__)", "round(**HERE__)",
-               "max(x, key=max(*HERE__))", "max(x, y, key=abs, **HERE__)", "x + max(*HERE__, y)"]
+               "max(x, key=max(*HERE__))", "max(x, y, key=abs, **HERE__)", "x + max(*HERE__, y)",
+               # several unpackings in one call: every operand, not just the last one, must be validated
+               "max(x, **HERE__, **y)", "max(x, **y, **HERE__)", "float(**HERE__, **x, **y)", "max(*HERE__, *y)",
+               "max(*x, *HERE__, *y)", "max(x, key=y, **HERE__, **y)", "str(**HERE__, **y)"]
 JUNK = ["", " ", "x +", "x y", "x;y", "x = 1", "import os", "# c", "x\n+1", " x", "(x", "x)", "max(x,", "x +* y",
         "max(x, key=)", "lambda", "x if y", "1x", "x ? y", "$x", "x := 1", "del x", "pass", "`x`", "x <> y",
         "max(x, x=1, x=2)", "max(**x, *y)", "max(k=1, x)", "f'{x'", "'unterminated", "x\\", "0777", "\t", "\n"]
